@@ -108,6 +108,20 @@ class Prop(SeqProp):
                         d.pop(next(iter(d)))
                     from .. import core as _core
                     cp = _core.clone_probe(m, lambda o: (list(o), len(o), [(k in o) and o[k] for k in (0, 1, -1, 5, 2.5, -3, 8, 12)]))
+                    if cp is None:
+                        # keys beyond every bound: the infinities (and numbers no float can hold) lie in no interval
+                        for far in (float("inf"), float("-inf"), 10 ** 400, -10 ** 400):
+                            try:
+                                if far in m:
+                                    cp = f"`{far!r} in map` is True, every bound is finite"; break
+                            except BaseException as e:  # noqa
+                                cp = f"`{far!r} in map` raised {err_name(e)}"; break
+                            try:
+                                cp = f"map[{far!r}] returned {m[far]!r}, every bound is finite"; break
+                            except KeyError:
+                                pass
+                            except BaseException as e:  # noqa
+                                cp = f"map[{far!r}] raised {err_name(e)} (KeyError: the key lies in no interval)"; break
                     out.append("ok" if cp is None else "ok clone-problem: " + cp)
                 elif m is None:
                     out.append("bad-op")
@@ -145,7 +159,7 @@ class Prop(SeqProp):
     def oracle(self, case, impl_out):
         for i, line in enumerate(impl_out):
             if "clone-problem: " in line:
-                return f"op {i}: copies of the map: {line.split('clone-problem: ')[1][:600]}"
+                return f"op {i}: copies of the map / keys beyond every bound: {line.split('clone-problem: ')[1][:600]}"
         ivs = None
         for i, (st, line) in enumerate(zip(case.meta["impl"], impl_out)):
             if st[0] == "mk":
